@@ -95,6 +95,30 @@ def call_case(spec):
     return jsonable(res)
 
 
+def run_in_interpreter(prop_id, modname, funcname, case, pyflags=("-O",), timeout=900):
+    """Execute ONE case in a fresh interpreter started with the given flags (e.g. -O: assert statements and
+    __debug__ blocks are stripped); returns the case's result dict.  Interpreter mode is part of the environment a
+    user may run the package in."""
+    import subprocess
+    import tempfile
+    verif = os.path.dirname(os.path.dirname(os.path.abspath(__file__)))
+    fd, path = tempfile.mkstemp(suffix=".json", dir="/dev/shm" if os.path.isdir("/dev/shm") else None)
+    try:
+        with os.fdopen(fd, "w") as fp:
+            json.dump({"property": prop_id, "module": modname, "function": funcname, "case": jsonable(case)}, fp)
+        out = subprocess.run([sys.executable, *pyflags, "-B", "-W", "ignore", "-m", "mc.run", prop_id, "--replay", path, "--json"],
+                             cwd=verif, capture_output=True, text=True, timeout=timeout)
+        lines = [l for l in out.stdout.splitlines() if l.startswith("{")]
+        if not lines:
+            raise HarnessError(f"interpreter {pyflags} produced no result: {out.stderr[-400:]}")
+        rec = json.loads(lines[-1])
+        if rec.get("harness_error"):
+            raise HarnessError(f"under {pyflags}: {rec['harness_error']}")
+        return rec
+    finally:
+        os.unlink(path)
+
+
 def V(sig: str, msg: str) -> dict:
     """A violation record: `sig` identifies the failing class precisely (used for known findings)."""
     return {"sig": sig, "msg": msg}
